@@ -426,3 +426,215 @@ Qed.
 (* ================================================================== the canonical wrapper of a field *)
 Lemma canon_view_correct : canon_view_stmt.
 Proof. intros sch mid f fd F. unfold canon_view. rewrite F. reflexivity. Qed.
+
+(* ================================================================== liveness of views is kept by every step *)
+(* every slice / map a view can point to is still there *)
+Definition lext (h h' : heap) : Prop :=
+  (forall r l, read_list h r = Some l -> exists l', read_list h' r = Some l') /\
+  (forall r m, read_map h r = Some m -> exists m', read_map h' r = Some m').
+
+Lemma lext_refl h : lext h h.
+Proof. split; eauto. Qed.
+Lemma lext_trans h1 h2 h3 : lext h1 h2 -> lext h2 h3 -> lext h1 h3.
+Proof.
+  intros [A1 A2] [B1 B2]. split.
+  - intros r l R. destruct (A1 _ _ R) as [l' R']. eauto.
+  - intros r m R. destruct (A2 _ _ R) as [m' R']. eauto.
+Qed.
+Lemma lext_app h e : lext h (h ++ [e]).
+Proof.
+  split.
+  - intros r l R. exists l. apply read_list_app. exact R.
+  - intros r m R. exists m. apply read_map_app. exact R.
+Qed.
+
+Lemma lext_liveb h h' v : lext h h' -> view_liveb h v = true -> view_liveb h' v = true.
+Proof.
+  intros [A1 A2] L. destruct v; try reflexivity.
+  - destruct (liveb_list _ _ _ L) as [->|[l R]]; [reflexivity|]. destruct (A1 _ _ R) as [l' R'].
+    destruct r; cbn [view_liveb]; [rewrite R'; reflexivity|rewrite R'; reflexivity|reflexivity].
+  - destruct (liveb_map _ _ _ _ L) as [->|[m R]]; [reflexivity|]. destruct (A2 _ _ R) as [m' R'].
+    destruct r; cbn [view_liveb]; [rewrite R'; reflexivity|rewrite R'; reflexivity|reflexivity].
+Qed.
+
+(* an object replaced by one whose list / map cells are still list / map cells *)
+Definition cells_kept (ob ob' : obj) : Prop :=
+  (forall f l, nth_error (o_cells ob) f = Some (CList l) -> exists l', nth_error (o_cells ob') f = Some (CList l')) /\
+  (forall f m, nth_error (o_cells ob) f = Some (CMap m) -> exists m', nth_error (o_cells ob') f = Some (CMap m')).
+
+Lemma get_obj_hset_neq h id o e : o <> id -> get_obj (hset h id e) o = get_obj h o.
+Proof. intro N. unfold get_obj, hget, hset. rewrite nth_error_set_nth_neq by congruence. reflexivity. Qed.
+Lemma hget_hset_neq h id v e : v <> id -> hget (hset h id e) v = hget h v.
+Proof. intro N. unfold hget, hset. rewrite nth_error_set_nth_neq by congruence. reflexivity. Qed.
+
+Lemma lext_hset_obj h id ob ob' : get_obj h id = Some ob -> cells_kept ob ob' -> lext h (hset h id (HObj ob')).
+Proof.
+  intros G [K1 K2]. pose proof (get_obj_lt _ _ _ G) as Lt. split.
+  - intros [o f|v|] l R; cbn [read_list] in *; [| |discriminate].
+    + destruct (Nat.eq_dec o id) as [->|N].
+      * rewrite G in R. rewrite get_obj_hset_eq by exact Lt.
+        destruct (nth_error (o_cells ob) f) as [[| |l0| |]|] eqn:C; try discriminate.
+        destruct (K1 _ _ C) as [l' C']. rewrite C'. eauto.
+      * rewrite get_obj_hset_neq by exact N. eauto.
+    + destruct (Nat.eq_dec v id) as [->|N].
+      * unfold get_obj in G. destruct (hget h id) as [[| |]|]; discriminate.
+      * rewrite hget_hset_neq by exact N. eauto.
+  - intros [o f|v|] m R; cbn [read_map] in *; [| |discriminate].
+    + destruct (Nat.eq_dec o id) as [->|N].
+      * rewrite G in R. rewrite get_obj_hset_eq by exact Lt.
+        destruct (nth_error (o_cells ob) f) as [[| | |m0|]|] eqn:C; try discriminate.
+        destruct (K2 _ _ C) as [m' C']. rewrite C'. eauto.
+      * rewrite get_obj_hset_neq by exact N. eauto.
+    + destruct (Nat.eq_dec v id) as [->|N].
+      * unfold get_obj in G. destruct (hget h id) as [[| |]|]; discriminate.
+      * rewrite hget_hset_neq by exact N. eauto.
+Qed.
+
+Lemma hget_hset_eq h id e : id < length h -> hget (hset h id e) id = Some e.
+Proof. intro L. unfold hget, hset. apply nth_error_set_nth_eq. exact L. Qed.
+Lemma hget_lt h id e : hget h id = Some e -> id < length h.
+Proof. unfold hget. apply nth_error_Some_lt. Qed.
+
+(* a stand-alone slice / map variable overwritten by a slice / map *)
+Lemma lext_hset_var h id e e' : hget h id = Some e ->
+  match e, e' with HListVar _, HListVar _ | HMapVar _, HMapVar _ => True | _, _ => False end -> lext h (hset h id e').
+Proof.
+  intros G K. pose proof (hget_lt _ _ _ G) as Lt. split.
+  - intros [o f|v|] l R; cbn [read_list] in *; [| |discriminate].
+    + destruct (Nat.eq_dec o id) as [->|N].
+      * unfold get_obj in R. rewrite G in R. destruct e as [ob| |]; [|discriminate|discriminate]. destruct e'; destruct K.
+      * rewrite get_obj_hset_neq by exact N. eauto.
+    + destruct (Nat.eq_dec v id) as [->|N].
+      * rewrite hget_hset_eq by exact Lt. rewrite G in R. destruct e as [|l0|]; try discriminate. destruct e' as [|l1|]; try destruct K. eauto.
+      * rewrite hget_hset_neq by exact N. eauto.
+  - intros [o f|v|] m R; cbn [read_map] in *; [| |discriminate].
+    + destruct (Nat.eq_dec o id) as [->|N].
+      * unfold get_obj in R. rewrite G in R. destruct e as [ob| |]; [|discriminate|discriminate]. destruct e'; destruct K.
+      * rewrite get_obj_hset_neq by exact N. eauto.
+    + destruct (Nat.eq_dec v id) as [->|N].
+      * rewrite hget_hset_eq by exact Lt. rewrite G in R. destruct e as [| |m0]; try discriminate. destruct e' as [| |m1]; try destruct K. eauto.
+      * rewrite hget_hset_neq by exact N. eauto.
+Qed.
+
+Lemma cells_kept_refl ob : cells_kept ob ob.
+Proof. split; eauto. Qed.
+
+Lemma cells_kept_set_cell ob f c :
+  (forall c0, nth_error (o_cells ob) f = Some c0 ->
+     match c0 with CList _ => exists l, c = CList l | CMap _ => exists m, c = CMap m | _ => True end) ->
+  cells_kept ob (set_cell ob f c).
+Proof.
+  intro K. unfold set_cell. split; cbn [o_cells]; intros f' x C.
+  - destruct (Nat.eq_dec f' f) as [->|N].
+    + destruct (K _ C) as [l ->]. rewrite nth_error_set_nth_eq by (eapply nth_error_Some_lt; eauto). eauto.
+    + rewrite nth_error_set_nth_neq by congruence. eauto.
+  - destruct (Nat.eq_dec f' f) as [->|N].
+    + destruct (K _ C) as [l ->]. rewrite nth_error_set_nth_eq by (eapply nth_error_Some_lt; eauto). eauto.
+    + rewrite nth_error_set_nth_neq by congruence. eauto.
+Qed.
+
+(* the heap a step writes into: the one it was given, or that heap with a freshly allocated entry *)
+Definition hbase (h0 h : heap) : Prop := h = h0 \/ exists x, h = h0 ++ [x].
+Lemma hbase_refl h : hbase h h.
+Proof. left. reflexivity. Qed.
+Lemma hbase_app h x : hbase h (h ++ [x]).
+Proof. right. eauto. Qed.
+Lemma hbase_lext h0 h : hbase h0 h -> lext h0 h.
+Proof. intros [->|[x ->]]; [apply lext_refl|apply lext_app]. Qed.
+Lemma hbase_get_obj h0 h id ob : hbase h0 h -> get_obj h0 id = Some ob -> get_obj h id = Some ob.
+Proof. intros [->|[x ->]] G; [exact G|apply get_obj_app; exact G]. Qed.
+Lemma hbase_read_list h0 h r l : hbase h0 h -> read_list h0 r = Some l -> read_list h r = Some l.
+Proof. intros [->|[x ->]] G; [exact G|apply read_list_app; exact G]. Qed.
+Lemma hbase_read_map h0 h r l : hbase h0 h -> read_map h0 r = Some l -> read_map h r = Some l.
+Proof. intros [->|[x ->]] G; [exact G|apply read_map_app; exact G]. Qed.
+
+Lemma lext_write_list h0 h r l0 l : hbase h0 h -> read_list h0 r = Some l0 -> lext h0 (write_list h r l).
+Proof.
+  intros B R0. apply (lext_trans _ h); [apply hbase_lext; exact B|]. pose proof (hbase_read_list _ _ _ _ B R0) as R.
+  destruct r as [o f|v|]; cbn [write_list]; [| |apply lext_refl].
+  - destruct (read_list_field _ _ _ _ R) as [ob [G C]]. rewrite G. eapply lext_hset_obj; [exact G|].
+    apply cells_kept_set_cell. intros c0 C0. rewrite C in C0. inversion C0; subst. eauto.
+  - cbn [read_list] in R. destruct (hget h v) as [[|l1|]|] eqn:G; try discriminate.
+    eapply lext_hset_var; [exact G|exact I].
+Qed.
+Lemma lext_write_map h0 h r m0 m : hbase h0 h -> read_map h0 r = Some m0 -> lext h0 (write_map h r m).
+Proof.
+  intros B R0. apply (lext_trans _ h); [apply hbase_lext; exact B|]. pose proof (hbase_read_map _ _ _ _ B R0) as R.
+  destruct r as [o f|v|]; cbn [write_map]; [| |apply lext_refl].
+  - destruct (read_map_field _ _ _ _ R) as [ob [G C]]. rewrite G. eapply lext_hset_obj; [exact G|].
+    apply cells_kept_set_cell. intros c0 C0. rewrite C in C0. inversion C0; subst. eauto.
+  - cbn [read_map] in R. destruct (hget h v) as [[| |m1]|] eqn:G; try discriminate.
+    eapply lext_hset_var; [exact G|exact I].
+Qed.
+
+Section LiveKept.
+  Variable sch : schema.
+
+  Lemma lext_same h mid id ob : recv_obj sch h mid (Some id) = Some ob -> lext h (hset h id (HObj ob)).
+  Proof. intro R. apply recv_obj_inv in R. destruct R as [G _]. rewrite (hset_same _ _ _ G). apply lext_refl. Qed.
+
+  Lemma lext_set_unk h mid id ob u : recv_obj sch h mid (Some id) = Some ob -> lext h (hset h id (HObj (set_unk ob u))).
+  Proof. intro R. apply recv_obj_inv in R. destruct R as [G _]. eapply lext_hset_obj; [exact G|]. split; cbn [set_unk o_cells]; eauto. Qed.
+
+  Lemma lext_set_oneof h0 h mid id ob j x : hbase h0 h -> recv_obj sch h0 mid (Some id) = Some ob ->
+    lext h0 (hset h id (HObj (set_oneof ob j x))).
+  Proof.
+    intros B R. apply recv_obj_inv in R. destruct R as [G _]. apply (lext_trans _ h); [apply hbase_lext; exact B|].
+    eapply lext_hset_obj; [eapply hbase_get_obj; eauto|]. split; cbn [set_oneof o_cells]; eauto.
+  Qed.
+
+  (* a cell overwritten by one that fits the field: the invariant says the old one fits it too *)
+  Lemma lext_set_cell h0 h mid id ob f fd c : hbase h0 h -> hokP sch h0 -> recv_obj sch h0 mid (Some id) = Some ob ->
+    field_of sch mid f = Some fd -> cell_fitsb fd c = true -> lext h0 (hset h id (HObj (set_cell ob f c))).
+  Proof.
+    intros B H R F C. apply recv_obj_inv in R. destruct R as [G M]. apply (lext_trans _ h); [apply hbase_lext; exact B|].
+    eapply lext_hset_obj; [eapply hbase_get_obj; eauto|]. apply cells_kept_set_cell. intros c0 C0.
+    pose proof (H _ _ G) as K. unfold rp_obj_okb in K. unfold field_of in F. rewrite M in K.
+    destruct (get_msg sch mid) as [md|]; [|discriminate].
+    apply andb_prop in K. destruct K as [K _]. apply andb_prop in K. destruct K as [K _].
+    destruct (cells_fitb_nth _ _ _ _ K F) as [c1 [C1 F1]]. rewrite C0 in C1. inversion C1; subst c1.
+    unfold cell_fitsb in C, F1. destruct c0; try exact I; destruct (f_shape fd); destruct (f_ty fd); try discriminate; destruct c; try discriminate; eauto.
+  Qed.
+
+  Ltac ldm :=
+    match goal with
+    | |- context [match ?x with _ => _ end] => destruct x eqn:?
+    | |- context [if ?x then _ else _] => destruct x eqn:?
+    end.
+
+  Ltac lfits :=
+    unfold cell_fitsb;
+    repeat match goal with
+           | H : pval_to_elem (f_ty _) _ = Some (EScalar _) |- _ => destruct (pte_scalar _ _ _ H) as [? ?]; clear H
+           | H : pval_to_elem (f_ty _) _ = Some (EPtr _) |- _ => destruct (pte_ptr _ _ _ H) as [? ?]; clear H
+           end;
+    repeat match goal with
+           | H : f_shape _ = _ |- _ => rewrite H
+           | H : f_ty _ = _ |- _ => rewrite H
+           end;
+    try reflexivity.
+
+  Ltac lbase := first [apply hbase_refl | apply hbase_app].
+
+  Ltac lleaf H :=
+    cbn [fst];
+    first
+      [ apply lext_refl
+      | apply lext_app
+      | eapply lext_same; eassumption
+      | eapply lext_set_unk; eassumption
+      | eapply lext_set_oneof; [lbase | eassumption]
+      | eapply lext_set_cell; [lbase | exact H | eassumption | eassumption | lfits]
+      | eapply lext_write_list; [lbase | eassumption]
+      | eapply lext_write_map; [lbase | eassumption] ].
+
+  Lemma step_lext : forall h o, hokP sch h -> lext h (fst (step sch h o)).
+  Proof.
+    intros h o H. destruct o; cbn [step]; unfold halloc; repeat ldm; lleaf H.
+  Qed.
+End LiveKept.
+
+Lemma vp_view_live_kept : vp_view_live_kept_stmt.
+Proof.
+  intros sch h o v Hwf Hok Hl. eapply lext_liveb; [|exact Hl]. apply step_lext. apply hokP_of. exact Hok.
+Qed.
